@@ -97,10 +97,13 @@ TInit == l = 1 /\ st = 0 /\ TLCSet(1, 0) /\ TLCSet(2, 0)
 TNext ==
     /\ l <= NLines
     /\ LET e == TraceLog[l]
-           bads == Verdict(e)
+           all == Verdict(e)
+           \* one verdict per clause (register 2 counts the REJECT lines the harness must parse)
+           bads == SelectSeq([k \in 1..Len(all) |-> IF \E j \in 1..(k - 1) : all[j][1] = all[k][1] THEN <<>> ELSE all[k]],
+                             LAMBDA x : x # <<>>)
        IN IF bads = <<>> THEN TRUE
           ELSE /\ \A k \in 1..Len(bads) : PrintT(<<"REJECT", e.tid, l, bads[k][1], Pad(bads[k][2])>>)
-               /\ TLCSet(2, TLCGet(2) + 1)
+               /\ TLCSet(2, TLCGet(2) + Len(bads))
     /\ l' = l + 1
     /\ st' = st
     /\ TLCSet(1, l)
